@@ -56,7 +56,8 @@ structure D where
   started : Bool := false
   resetHappened : Bool := false
   bad : Bool := false
-  epoll : Bool := false     -- back-end whose reactor::select makes a system call (fails with EBADF on a closed descriptor)
+  backend : String := "poll"  -- epoll: reactor::select is a system call (EBADF on a closed descriptor); select: select() fails with EBADF while a closed descriptor is registered
+  stale : Nat := 0            -- number of setter functors that ran after their descriptor had been closed
 
 def codeOf : String → Option Code
   | "ok" => some .ok | "canceled" => some .canceled | "selfail" => some .selectFailed
@@ -136,9 +137,11 @@ def settle : Nat → D → D
       let item := d.st.running
       -- environment: a queued setter whose descriptor was closed meanwhile: epoll_ctl fails with EBADF,
       -- the poll/select reactors only update their tables
-      let selOk := match item with
-        | some (.setter (some fd) _ _) => !(d.epoll && !(d.socks.getD fd {}).isOpen)
-        | _ => true
+      let staleNow := match item with
+        | some (.setter (some fd) _ _) => !(d.socks.getD fd {}).isOpen
+        | _ => false
+      let selOk := !(staleNow && d.backend == "epoll")
+      let d := if staleNow then { d with stale := d.stale + 1 } else d
       let d := { d with st := loopStep d.st { now := d.now, selOk := selOk, selErr := .badf } }
       match item with
       | some (.fn t) | some (.ev t _ _) =>
@@ -161,7 +164,11 @@ def readyEvents (d : D) (f : Option Nat) : List Event :=
     let wr := io.curOut
     if rd || wr then [{ fd := fd, rd := rd, wr := wr, err := false }] else []
 
-def fuelFor (d : D) : Nat := 4 * (d.st.queue.length + 4) + 16
+/-- select(): a registered descriptor that has been closed makes the call fail with EBADF -/
+def selectFails (d : D) : Bool :=
+  d.backend == "select" &&
+    (List.range d.socks.length).any fun fd =>
+      !(d.socks.getD fd {}).isOpen && ((ioGet d.st.map fd).curIn || (ioGet d.st.map fd).curOut)
 
 def topOp (d : D) : SOp → D
   | .setNow n => { d with now := n }
@@ -170,7 +177,7 @@ def topOp (d : D) : SOp → D
     else settle 100000 { d with started := true }
   | .step f =>
     if d.started && d.st.phase == .polling then
-      settle 100000 { d with st := loopStep d.st { now := d.now, events := readyEvents d f } }
+      settle 100000 { d with st := loopStep d.st { now := d.now, events := readyEvents d f, pollErr := selectFails d } }
     else d
   | .reset =>
     if d.st.phase == .stopped || d.st.phase == .failed || !d.started then
@@ -209,9 +216,9 @@ def render (d : D) : String :=
     | some t => s!"{i}:{kindStr t.kind}"
     | none => s!"{i}:?"
   let ph := if !d.started then "notrunning" else phaseStr d.st.phase
-  s!"log {" ".intercalate logs} | alive {" ".intercalate ((sortNat (aliveToks d.st)).map toString)} | kinds {" ".intercalate kinds} | phase {ph} | lost {d.st.lost.length}"
+  s!"log {" ".intercalate logs} | alive {" ".intercalate ((sortNat (aliveToks d.st)).map toString)} | kinds {" ".intercalate kinds} | phase {ph} | lost {d.st.lost.length} | stale {d.stale}"
 
-def runLoopCase (epoll : Bool) (ws : List String) : String :=
+def runLoopCase (backend : String) (ws : List String) : String :=
   match ws with
   | ns :: nt :: rest =>
     match ns.toNat?, nt.toNat? with
@@ -222,7 +229,7 @@ def runLoopCase (epoll : Bool) (ws : List String) : String :=
         match w.splitOn "=" with
         | [_, body] => if body == "-" then [] else (body.splitOn ",").map parseSOp
         | _ => [SOp.bad]
-      let d : D := { epoll := epoll, progs := progs, socks := List.replicate ns {}, tobjs := List.replicate nt {} }
+      let d : D := { backend := backend, progs := progs, socks := List.replicate ns {}, tobjs := List.replicate nt {} }
       render ((script.map parseSOp).foldl topOp d)
     | _, _ => "bad-op"
   | _ => "bad-op"
@@ -308,9 +315,9 @@ def judgePool (ws : List String) : String :=
     boolStr ((os.filterMap id).all (Spec.jobOK (kept == "1")))
   | _ => "bad-op"
 
-def stepLine (epoll : Bool) (_ : Unit) (line : String) : Unit × String :=
+def stepLine (backend : String) (_ : Unit) (line : String) : Unit × String :=
   let r := match words line with
-    | "L" :: rest => runLoopCase epoll rest
+    | "L" :: rest => runLoopCase backend rest
     | "K" :: rest => runPoolCase rest
     | "J" :: rest => judgeLoop rest
     | "JK" :: rest => judgePool rest
@@ -318,4 +325,4 @@ def stepLine (epoll : Bool) (_ : Unit) (line : String) : Unit × String :=
     | _ => "bad-op"
   ((), r)
 
-def main (args : List String) : IO Unit := lineLoop () (stepLine (args.head? == some "epoll"))
+def main (args : List String) : IO Unit := lineLoop () (stepLine (args.headD "poll"))
